@@ -2,7 +2,7 @@
     Property theorems only; the proofs are in Expect/Refine.v. *)
 From Coq Require Import ZArith NArith List Bool Arith.
 Import ListNotations.
-From PV Require Import Base.PySeq Base.Rx Expect.Model Expect.Spec Expect.Refine.
+From PV Require Import Base.PySeq Base.Rx Expect.Model Expect.Spec Expect.Refine Expect.SpecFacts.
 
 (** For every regex engine, every reachable state (the search buffer is a suffix of the pending text -
     however a previous call, with whatever window or patterns, left it), every pattern list, searcher
@@ -41,6 +41,13 @@ Theorem C03_incremental_string_search :
   shift3 (length x) (search rx re_search c (B ++ d) (length d)) = nsearch rx re_search c (x ++ B ++ d).
 Proof. exact search_incremental. Qed.
 Print Assumptions C03_incremental_string_search.
+
+(** Which W is in force: the caller's own value when one is given - None meaning "search everything", whatever the
+    spawn object's attribute says - and the attribute only when the caller gives none. *)
+Theorem C03_window_in_force : forall (attr : option nat),
+  (forall w, resolve_window (Some w) attr = w) /\ resolve_window None attr = attr.
+Proof. exact resolve_window_spec. Qed.
+Print Assumptions C03_window_in_force.
 
 (** non-vacuity: a trimmed buffer left by a timed-out call with a shorter look-back is a reachable Inv state *)
 Example C03_inv_example : Inv {| pend := [97; 98; 99; 100]%N; buf := [99; 100]%N |} /\
